@@ -2285,6 +2285,12 @@ void Validator::ValidatorImpl::validateMathMLElementsChildrenAndSiblings(const X
                 && isSecondMathmlSibling(parentNode, node, component)
                 && hasOneMathmlChild(node, component);
         }
+
+        // The content of a qualifier is an expression like any other.
+
+        for (size_t i = 0, iMax = mathmlChildCount(node); i < iMax; ++i) {
+            validateMathMLElementsChildrenAndSiblings(mathmlChildNode(node, i), component);
+        }
     } else if (node->isMathmlElement("logbase")) {
         auto parentNode = node->parent();
 
@@ -2292,6 +2298,10 @@ void Validator::ValidatorImpl::validateMathMLElementsChildrenAndSiblings(const X
             && hasFirstMathmlSiblingWithName(parentNode, node, "log", component)
             && isSecondMathmlSibling(parentNode, node, component)
             && hasOneMathmlChild(node, component);
+
+        for (size_t i = 0, iMax = mathmlChildCount(node); i < iMax; ++i) {
+            validateMathMLElementsChildrenAndSiblings(mathmlChildNode(node, i), component);
+        }
     } else if (node->isMathmlElement("bvar")) {
         // A 'bvar' element can have one or two children, e.g.
         //
@@ -2322,6 +2332,10 @@ void Validator::ValidatorImpl::validateMathMLElementsChildrenAndSiblings(const X
             && hasFirstMathmlSiblingWithName(parentNode, node, "diff", component)
             && isSecondMathmlSibling(parentNode, node, component)
             && hasOneOrTwoMathmlChildren(node, component);
+
+        for (size_t i = 0, iMax = mathmlChildCount(node); i < iMax; ++i) {
+            validateMathMLElementsChildrenAndSiblings(mathmlChildNode(node, i), component);
+        }
     }
 }
 
